@@ -373,7 +373,57 @@ def run_entry_output_fresh(prog, tier, repo):
                 continue
             break
         problem = None
-        if r is not None:
+        # (b) the stored text is *built from* (format!/to_string/concat of) a buffer that is created before the loop and
+        # written to inside it through a `&mut` (e.g. an encoder appending a name) without being cleared in the loop
+        acc_bufs = {}
+        for l, ty in enumerate(b.locals):
+            if not (ty.k == 'adt' and ty.name.startswith('std::string::String')):
+                continue
+            defs_l = [d for d in def_sites(b).get(l, []) if not b.blocks[d[0]].cleanup]
+            if not defs_l or any(any(cfg.can_reach(h, d[0]) and cfg.can_reach(d[0], h) for h in in_loop) for d in defs_l):
+                continue
+            writes, cleared = None, False
+            for bj, bl in enumerate(b.blocks):
+                tt = bl.term
+                if bl.cleanup or tt[0] != 'call' or not any(cfg.can_reach(h, bj) and cfg.can_reach(bj, h) for h in in_loop):
+                    continue
+                for o in tt[3]:
+                    if o[0] in ('c', 'm') and operand_root(b, o)[0] == l and b.locals[o[1].local].k == 'ref' and b.locals[o[1].local].extra == 1:
+                        if (callee(tt)[1] or '').split('::')[-1] in ('clear', 'truncate'):
+                            cleared = True
+                        else:
+                            writes = tt[7]
+            if writes and not cleared:
+                acc_bufs[l] = writes
+        if acc_bufs and r is not None:
+            seen_l = set()
+            stack = [r]
+            while stack and len(seen_l) < 200:
+                x = stack.pop()
+                if x in seen_l:
+                    continue
+                seen_l.add(x)
+                if x in acc_bufs:
+                    problem = acc_bufs[x]
+                    break
+                for d in def_sites(b).get(x, []):
+                    if b.blocks[d[0]].cleanup:
+                        continue
+                    ops_ = list(d[2][3]) if d[1] == 'term' else ([d[2][1]] if d[2][0] == 'use' else (list(d[2][2]) if d[2][0] == 'agg' else []))
+                    if d[1] != 'term' and d[2][0] == 'ref':
+                        stack.append(root_local(b, d[2][2].local)[0])
+                    for o in ops_:
+                        if isinstance(o, tuple) and o and o[0] in ('c', 'm'):
+                            stack.append(root_local(b, o[1].local)[0])
+                # values written into x through a projection (`(*box).0 = [args]`)
+                for bl in b.blocks:
+                    for st in bl.stmts:
+                        if st[0] == 'a' and st[1].proj and st[1].local == x and not bl.cleanup:
+                            rv = st[2]
+                            for o in ([rv[1]] if rv[0] == 'use' else (list(rv[2]) if rv[0] == 'agg' else [])):
+                                if o[0] in ('c', 'm'):
+                                    stack.append(root_local(b, o[1].local)[0])
+        if problem is None and r is not None:
             defs = [d for d in def_sites(b).get(r, []) if not b.blocks[d[0]].cleanup]
             outside = [d for d in defs if not any(cfg.can_reach(h, d[0]) and cfg.can_reach(d[0], h) for h in in_loop)]
             if outside and len(outside) == len(defs):
